@@ -1150,6 +1150,143 @@ impl<C: Cursor> MergingCursor<C> {
         assert forall|i: int| 0 <= i < f2.len() implies (#[trigger] f2[i]).key_spec() == key_of_child(f2[i]) by { assert((|c: C| at_cut(c, low))(f2[i])); f2[i].lemma_cursor_laws(); }
         lemma_heap_top_fwd(f2, low);
     }
+
+    // ---- the mirror for prev
+    spec fn high_fwd(&self) -> spec_fn(Ent) -> bool {
+        if self.fwd_b() { |x: Ent| true } else { match key_of_child(self.cursors@[0]) { Some(e) => ge_ent(e.0, e.1), None => |x: Ent| false } }
+    }
+    spec fn high_rev(&self) -> spec_fn(Ent) -> bool {
+        if self.rev_b() { |x: Ent| false } else { match key_of_child(self.cursors@[0]) { Some(e) => ge_ent(e.0, e.1), None => |x: Ent| true } }
+    }
+    spec fn stepped_back(c2: C, c: C) -> bool {
+        c2.wf() && c2.ents() == c.ents() && c2.pos() == (if c.pos() > -1 { c.pos() - 1 } else { -1 })
+    }
+    proof fn lemma_switch_fr(&self, i: int, c2: C)
+        requires self.wf(), self.comparator == Comparator::Forward, 0 <= i < self.n(), Self::stepped_back(c2, self.cursors@[i])
+        ensures at_cut_rev(c2, self.high_fwd())
+    {
+        let cs = self.cursors@; let c = cs[i]; let s = c.ents();
+        self.lemma_child_wf(i); self.lemma_child_wf(0);
+        if self.fwd_b() {
+        } else {
+            match key_of_child(cs[0]) {
+                Some(e) => { assert((|c: C| c.pos() == clt(c.ents(), e.0, e.1))(c)); lemma_clt(s, e.0, e.1); }
+                None => { assert((|c: C| c.pos() == c.ents().len())(c)); }
+            }
+        }
+    }
+    proof fn lemma_switch_fr_pos(&self, f1: Seq<C>)
+        requires self.wf(), self.comparator == Comparator::Forward, f1.len() == self.n(),
+            forall|i: int| 0 <= i < f1.len() ==> Self::stepped_back(#[trigger] f1[i], self.cursors@[i]),
+        ensures sumf(f1, |c: C| c.pos()) + self.n() - 1 == (if self.pos() > -1 { self.pos() - 1 } else { -1 })
+    {
+        let cs = self.cursors@;
+        self.lemma_cursor_laws();
+        lemma_total_is_len(cs);
+        self.lemma_child_wf(0);
+        if self.fwd_b() {
+            assert forall|i: int| 0 <= i < f1.len() implies (|c: C| c.pos())(#[trigger] f1[i]) == (|c: C| -1int)(cs[i]) by { self.lemma_child_wf(i); }
+            lemma_sum_pointwise(f1, |c: C| c.pos(), cs, |c: C| -1int);
+            lemma_sum_root_others(cs, |c: C| -1int, |c: C| 0int, -1, -1);
+            lemma_sum_zero(cs);
+            lemma_sum_only_root(cs, |c: C| c.pos());
+        } else {
+            match key_of_child(cs[0]) {
+                Some(e) => {
+                    assert forall|i: int| 0 <= i < f1.len() implies (|c: C| c.pos())(#[trigger] f1[i]) == (|c: C| clt(c.ents(), e.0, e.1) - 1)(cs[i]) by {
+                        self.lemma_child_wf(i);
+                        assert((|c: C| c.pos() == clt(c.ents(), e.0, e.1))(cs[i]));
+                        lemma_clt(cs[i].ents(), e.0, e.1);
+                    }
+                    lemma_sum_pointwise(f1, |c: C| c.pos(), cs, |c: C| clt(c.ents(), e.0, e.1) - 1);
+                    lemma_sum_root_others(cs, |c: C| clt(c.ents(), e.0, e.1) - 1, |c: C| clt(c.ents(), e.0, e.1), -1, -1);
+                    lemma_sum_eq(cs, |c: C| c.pos(), |c: C| clt(c.ents(), e.0, e.1));
+                    lemma_member_rank(cs, 0, cs[0].pos());
+                }
+                None => {
+                    assert forall|i: int| 0 <= i < f1.len() implies (|c: C| c.pos())(#[trigger] f1[i]) == (|c: C| c.ents().len() as int - 1)(cs[i]) by {
+                        self.lemma_child_wf(i);
+                        assert((|c: C| c.pos() == c.ents().len())(cs[i]));
+                    }
+                    lemma_sum_pointwise(f1, |c: C| c.pos(), cs, |c: C| c.ents().len() as int - 1);
+                    lemma_sum_root_others(cs, |c: C| c.ents().len() as int - 1, |c: C| c.ents().len() as int, -1, -1);
+                    lemma_sum_eq(cs, |c: C| c.pos(), |c: C| c.ents().len() as int);
+                }
+            }
+        }
+    }
+    proof fn lemma_step_r(&self, i: int, c2: C)
+        requires self.wf(), self.comparator == Comparator::Reverse, 0 <= i < self.n(),
+            i == 0 ==> Self::stepped_back(c2, self.cursors@[0]), i > 0 ==> c2 == self.cursors@[i],
+        ensures at_cut_rev(c2, self.high_rev())
+    {
+        let cs = self.cursors@; let c = cs[i]; let s = c.ents();
+        self.lemma_child_wf(i); self.lemma_child_wf(0);
+        if self.rev_b() {
+        } else {
+            match key_of_child(cs[0]) {
+                Some(e) => {
+                    assert((|c: C| c.pos() == cle(c.ents(), e.0, e.1) - 1)(c));
+                    lemma_cle(s, e.0, e.1); lemma_clt(s, e.0, e.1); lemma_cle_clt(s, e.0, e.1);
+                    if i == 0 {
+                        assert(s[c.pos()].key == e.0 && s[c.pos()].ts == e.1);
+                    } else if exists|j: int| 0 <= j < s.len() && #[trigger] s[j].key == e.0 && s[j].ts == e.1 {
+                        let j = choose|j: int| 0 <= j < s.len() && #[trigger] s[j].key == e.0 && s[j].ts == e.1;
+                        assert(cs[i].ents()[j].key == cs[0].ents()[cs[0].pos()].key);
+                    }
+                }
+                None => { assert((|c: C| c.pos() == -1)(c)); }
+            }
+        }
+    }
+    proof fn lemma_step_r_pos(&self, f1: Seq<C>)
+        requires self.wf(), self.comparator == Comparator::Reverse, f1.len() == self.n(),
+            Self::stepped_back(f1[0], self.cursors@[0]), forall|i: int| 1 <= i < f1.len() ==> #[trigger] f1[i] == self.cursors@[i],
+        ensures sumf(f1, |c: C| c.pos()) + self.n() - 1 == (if self.pos() > -1 { self.pos() - 1 } else { -1 })
+    {
+        let cs = self.cursors@;
+        self.lemma_cursor_laws();
+        lemma_total_is_len(cs);
+        self.lemma_child_wf(0);
+        assert(f1 =~= cs.update(0, f1[0]));
+        lemma_sum_update(cs, 0, f1[0], |c: C| c.pos());
+        if self.rev_b() {
+            lemma_sum_root_others(cs, |c: C| c.pos(), |c: C| c.ents().len() as int, 0, -1);
+        } else {
+            match key_of_child(cs[0]) {
+                Some(e) => {
+                    lemma_sum_cle(cs, 0, cs[0].pos());
+                    lemma_sum_root_others(cs, |c: C| c.pos(), |c: C| cle(c.ents(), e.0, e.1), -1, -1);
+                    lemma_member_rank(cs, 0, cs[0].pos());
+                }
+                None => {
+                    assert((|c: C| c.pos() == -1)(cs[0]));
+                    lemma_sum_root_others(cs, |c: C| c.pos(), |c: C| 0int, -1, -1);
+                    lemma_sum_zero(cs);
+                }
+            }
+        }
+    }
+    proof fn lemma_step_r_heap(&self, f1: Seq<C>)
+        requires self.wf(), self.comparator == Comparator::Reverse, f1.len() == self.n(), forall|i: int| 1 <= i < f1.len() ==> #[trigger] f1[i] == self.cursors@[i],
+        ensures heap_from(f1, Comparator::Reverse, 1)
+    {
+        let cs = self.cursors@;
+        assert forall|j: int| 1 < j < f1.len() && (j - 1) / 2 >= 1 implies !lessk(Comparator::Reverse, keyof(f1, j), #[trigger] keyof(f1, (j - 1) / 2)) by {
+            assert(f1[j] == cs[j] && f1[(j - 1) / 2] == cs[(j - 1) / 2]);
+            assert(!lessk(Comparator::Reverse, keyof(cs, j), keyof(cs, (j - 1) / 2)));
+        }
+    }
+    proof fn lemma_land_rev(&self, high: spec_fn(Ent) -> bool)
+        requires self.base(), self.comparator == Comparator::Reverse, up_closed(high),
+            allq(self.cursors@, |c: C| at_cut_rev(c, high)), heap_from(self.cursors@, Comparator::Reverse, 0),
+        ensures self.wf(), self.rev_a()
+    {
+        let f2 = self.cursors@;
+        assert(allq(f2, |c: C| c.wf())) by { assert forall|i: int| 0 <= i < f2.len() implies (#[trigger] f2[i]).wf() by { assert((|c: C| at_cut_rev(c, high))(f2[i])); } }
+        assert forall|i: int| 0 <= i < f2.len() implies (#[trigger] f2[i]).key_spec() == key_of_child(f2[i]) by { assert((|c: C| at_cut_rev(c, high))(f2[i])); f2[i].lemma_cursor_laws(); }
+        lemma_heap_top_rev(f2, high);
+    }
 }
 
 impl<C: Cursor> Cursor for MergingCursor<C> {
@@ -1389,7 +1526,74 @@ impl<C: Cursor> Cursor for MergingCursor<C> {
 //@ >>
 //@ end
 //@ extract sst/src/merging_cursor.rs | impl Cursor for MergingCursor<C> :: fn prev
-//@ external-body
+//@ rewrite X13 `for c in self.cursors.iter_mut() {` => `for idx in 0..self.cursors.len() {`
+//@ rewrite X13 `c.prev()?;` => `self.cursors[idx].prev()?;`
+//@ bodystart <<
+        let ghost high = if self.comparator == Comparator::Forward { self.high_fwd() } else { self.high_rev() };
+        proof {
+            self.lemma_child_wf(0);
+            match key_of_child(self.cursors@[0]) { Some(e) => { lemma_le_closed(e.0, e.1); } None => { lemma_le_closed(Seq::<u8>::empty(), 0); } }
+            assert(up_closed(high));
+        }
+//@ >>
+//@ loop 0 <<
+                invariant
+                    self.comparator == Comparator::Forward, self.cursors@.len() == old(self).cursors@.len(),
+                    old(self).wf(), old(self).comparator == Comparator::Forward, all_base(self.cursors@), same_tables(self.cursors@, old(self).cursors@),
+                    high == old(self).high_fwd(),
+                    forall|j: int| 0 <= j < idx ==> Self::stepped_back(#[trigger] self.cursors@[j], old(self).cursors@[j]),
+                    forall|j: int| idx <= j < self.cursors@.len() ==> self.cursors@[j] == old(self).cursors@[j],
+//@ >>
+//@ startloop 0 <<
+                let ghost pre = self.cursors@;
+                proof { old(self).lemma_child_wf(idx as int); }
+//@ >>
+//@ endloop 0 <<
+                proof {
+                    assert forall|j: int| 0 <= j < idx + 1 implies Self::stepped_back(#[trigger] self.cursors@[j], old(self).cursors@[j]) by { if j < idx { assert(self.cursors@[j] == pre[j]); } }
+                }
+//@ >>
+//@ before `self.comparator = Comparator::Reverse;` <<
+            let ghost f1 = self.cursors@;
+            proof {
+                lemma_same_tables(f1, old(self).cursors@);
+                assert forall|i: int| 0 <= i < f1.len() implies at_cut_rev(#[trigger] f1[i], high) by { old(self).lemma_switch_fr(i, f1[i]); }
+                old(self).lemma_switch_fr_pos(f1);
+            }
+//@ >>
+//@ after `self.heapify();` <<
+            proof {
+                let f2 = self.cursors@;
+                lemma_family_invariants(f2, f1);
+                lemma_family_merged(f1, f2);
+                assert(allq(f1, |c: C| at_cut_rev(c, high)));
+                assert(allq(f2, |c: C| at_cut_rev(c, high)));
+                self.lemma_land_rev(high);
+                assert(sumf(f2, |c: C| c.pos()) == sumf(f1, |c: C| c.pos()));
+            }
+//@ >>
+//@ after `self.cursors[0].prev()?;` <<
+            let ghost f1 = self.cursors@;
+            proof {
+                assert(same_tables(f1, old(self).cursors@)) by { assert forall|i: int| 0 <= i < f1.len() implies (#[trigger] f1[i]).ents() == old(self).cursors@[i].ents() by { if i > 0 { assert(f1[i] == old(self).cursors@[i]); } } }
+                lemma_same_tables(f1, old(self).cursors@);
+                assert(all_base(f1)) by { assert forall|i: int| 0 <= i < f1.len() implies (#[trigger] f1[i]).wf_base() by { if i > 0 { assert(f1[i] == old(self).cursors@[i]); } } }
+                assert forall|i: int| 0 <= i < f1.len() implies at_cut_rev(#[trigger] f1[i], high) by { if i > 0 { assert(f1[i] == old(self).cursors@[i]); } old(self).lemma_step_r(i, f1[i]); }
+                old(self).lemma_step_r_pos(f1);
+                old(self).lemma_step_r_heap(f1);
+            }
+//@ >>
+//@ after `self.percolate_down(0);` <<
+            proof {
+                let f2 = self.cursors@;
+                lemma_family_invariants(f2, f1);
+                lemma_family_merged(f1, f2);
+                assert(allq(f1, |c: C| at_cut_rev(c, high)));
+                assert(allq(f2, |c: C| at_cut_rev(c, high)));
+                self.lemma_land_rev(high);
+                assert(sumf(f2, |c: C| c.pos()) == sumf(f1, |c: C| c.pos()));
+            }
+//@ >>
 //@ end
 //@ extract sst/src/merging_cursor.rs | impl Cursor for MergingCursor<C> :: fn next
 //@ rewrite X13 `for c in self.cursors.iter_mut() {` => `for idx in 0..self.cursors.len() {`
@@ -1475,6 +1679,6 @@ impl<C: Cursor> Cursor for MergingCursor<C> {
 //@ end
 }
 
-//@ min-verified 12
+//@ min-verified 70
 } // verus!
 fn main() {}
